@@ -67,7 +67,11 @@ def gen_workload(rng, profile="c06"):
         for t, tot in enumerate(tokens):
             if rng.random() < 0.6:
                 toks.append([t, rng.randint(1, tot)])
-        spec.update(toks=toks, code=1 if rng.random() < pfail else 0, marker=rng.random() < pmark)
+        # the marker belongs to the job directory (identifier): once there, later submissions see it
+        ident = spec["copy_of"] if spec.get("copy_of") is not None else j
+        marker = rng.random() < pmark or any(x["marker"] for i, x in enumerate(jobs)
+                                             if (x["copy_of"] if x.get("copy_of") is not None else i) == ident)
+        spec.update(toks=toks, code=1 if rng.random() < pfail else 0, marker=marker)
         jobs.append(spec)
     return dict(tokens=tokens, jobs=jobs, seed=rng.randrange(1 << 30), pbatch=rng.choice([0.0, 0.15, 0.4]),
                 pwait=rng.choice([0.0, 0.05, 0.15]))
